@@ -18,6 +18,7 @@
 package c14
 
 import (
+	"encoding/hex"
 	"encoding/json"
 	"fmt"
 	"regexp"
@@ -49,11 +50,69 @@ var exhAlphabet = []string{"a", "b", "\u00e9", "\u3042", "\U0001F600", "\u0301",
 var rndAlphabet = append(append([]string{}, exhAlphabet...),
 	"A", "B", "\u00c9", "k", "K", "\u212a", "s", "S", "\u017f", "x", "1", "_", "-", ".", "\t", "\u00df", "\u3093", "\U0001F601", "*", "(")
 
-func multibyteBefore(r []rune, pos int) bool {
-	for i := 0; i < pos && i < len(r); i++ {
-		if r[i] >= utf8.RuneSelf {
+// ill-formed UTF-8 (subjects only, built as Go strings): lone continuation
+// bytes, truncated sequences, overlong / surrogate-shaped / out-of-range
+// sequences, bytes that never occur in UTF-8.  Go's `for range` / []rune
+// decoding, which gojq uses for length, explode and match offsets, counts
+// every ill-formed byte as one code point U+FFFD that is one byte wide.
+var badPieces = []string{"\x80", "\xb0", "\xbf", "\xc3", "\xe3\x81", "\xf0\x9f\x98", "\xc0\x80", "\xed\xa0\x80", "\xfe", "\xff",
+	"\xe3", "\xf0\x9f", "\xf4\x90\x80\x80", "\xc1\xbf"}
+
+// the exhaustive ill-formed scope: subjects of up to 3 of these pieces that
+// are not valid UTF-8 (adjacent pieces may also complete a sequence).
+var badExhAlphabet = []string{"a", "\u00e9", "\U0001F600", "\x80", "\xb0", "\xc3", "\xe3\x81", "\xf0\x9f\x98", "\xed\xa0\x80", "\xff"}
+
+// cut returns the bytes of s that cover code points a..b-1 of the decoding
+// (for well-formed s this is string([]rune(s)[a:b])).
+func cut(s string, a, b int) string {
+	from, to, n := len(s), len(s), 0
+	for i := range s {
+		if n == a {
+			from = i
+		}
+		if n == b {
+			to = i
+			break
+		}
+		n++
+	}
+	if from > to {
+		from = to
+	}
+	return s[from:to]
+}
+
+// illFormedBefore reports whether an ill-formed byte lies before code point pos.
+func illFormedBefore(s string, pos int) bool {
+	n := 0
+	for i, x := range s {
+		if n >= pos {
+			return false
+		}
+		if x == utf8.RuneError {
+			if _, w := utf8.DecodeRuneInString(s[i:]); w == 1 {
+				return true
+			}
+		}
+		n++
+	}
+	return false
+}
+
+func hexOf(s string) string { return hex.EncodeToString([]byte(s)) }
+
+// multibyteBefore reports whether a code point wider than one byte lies
+// before code point pos.
+func multibyteBefore(s string, pos int) bool {
+	n := 0
+	for i := range s {
+		if n >= pos {
+			return false
+		}
+		if _, w := utf8.DecodeRuneInString(s[i:]); w > 1 {
 			return true
 		}
+		n++
 	}
 	return false
 }
@@ -162,6 +221,40 @@ type reCase struct {
 	Form string `json:"form"`
 	K    int    `json:"k,omitempty"` // sub law: replacement template
 	G    bool   `json:"g,omitempty"` // sub law: gsub instead of sub
+}
+
+// Ill-formed subjects do not survive JSON; they travel as hex next to a
+// lossy readable copy.
+func (c reCase) MarshalJSON() ([]byte, error) {
+	type plain reCase
+	a := struct {
+		plain
+		Hex string `json:"s_hex,omitempty"`
+	}{plain: plain(c)}
+	if !utf8.ValidString(c.S) {
+		a.Hex = hexOf(c.S)
+	}
+	return json.Marshal(a)
+}
+
+func (c *reCase) UnmarshalJSON(b []byte) error {
+	type plain reCase
+	var a struct {
+		plain
+		Hex string `json:"s_hex"`
+	}
+	if err := json.Unmarshal(b, &a); err != nil {
+		return err
+	}
+	*c = reCase(a.plain)
+	if a.Hex != "" {
+		raw, err := hex.DecodeString(a.Hex)
+		if err != nil {
+			return err
+		}
+		c.S = string(raw)
+	}
+	return nil
 }
 
 func (c reCase) flagsVal() any {
@@ -306,11 +399,11 @@ func parseMatches(v any) ([]matchT, string) {
 
 // sliceLaw: slicing the subject by (offset, length) in code points returns
 // the reported string, for the match and every participating capture.
-func sliceLaw(r []rune, m matchT) string {
+func sliceLaw(s string, r []rune, m matchT) string {
 	if m.Offset < 0 || m.Length < 0 || m.Offset+m.Length > len(r) {
 		return fmt.Sprintf("match (offset %d, length %d) lies outside the %d code points of the subject", m.Offset, m.Length, len(r))
 	}
-	if got := string(r[m.Offset : m.Offset+m.Length]); got != m.Str {
+	if got := cut(s, m.Offset, m.Offset+m.Length); got != m.Str {
 		return fmt.Sprintf("subject sliced by (offset %d, length %d) is %q, reported string is %q", m.Offset, m.Length, got, m.Str)
 	}
 	for i, cp := range m.Caps {
@@ -320,7 +413,7 @@ func sliceLaw(r []rune, m matchT) string {
 		if cp.Offset < 0 || cp.Length < 0 || cp.Offset+cp.Length > len(r) {
 			return fmt.Sprintf("capture %d (offset %d, length %d) lies outside the %d code points of the subject", i, cp.Offset, cp.Length, len(r))
 		}
-		if got := string(r[cp.Offset : cp.Offset+cp.Length]); got != *cp.Str {
+		if got := cut(s, cp.Offset, cp.Offset+cp.Length); got != *cp.Str {
 			return fmt.Sprintf("capture %d: subject sliced by (offset %d, length %d) is %q, reported string is %q", i, cp.Offset, cp.Length, got, *cp.Str)
 		}
 	}
@@ -387,7 +480,7 @@ func fetchRef(c reCase) *ref {
 			return rf
 		}
 		for _, m := range ms {
-			if msg := sliceLaw(rf.r, m); msg != "" {
+			if msg := sliceLaw(c.S, rf.r, m); msg != "" {
 				rf.bad = "reference match list unusable: " + msg
 				return rf
 			}
@@ -411,13 +504,16 @@ func observe(part, law string, c reCase, rf *ref) bool {
 	rec.Class("flags/" + part + "/" + c.flagsShow())
 	rec.Class("form/" + part + "/" + c.Form)
 	nt := false
-	empty, mb, nullcap, named := false, false, false, false
+	empty, mb, nullcap, named, ill := false, false, false, false, false
 	for _, m := range rf.gs {
 		if m.Length == 0 {
 			empty = true
 		}
-		if multibyteBefore(rf.r, m.Offset) {
+		if multibyteBefore(c.S, m.Offset) {
 			mb = true
+		}
+		if illFormedBefore(c.S, m.Offset+m.Length) {
+			ill = true
 		}
 		for _, cp := range m.Caps {
 			if cp.Str == nil {
@@ -443,6 +539,13 @@ func observe(part, law string, c reCase, rf *ref) bool {
 	if mb {
 		rec.Class("shape/" + part + "/multibyte-before-match")
 		nt = true
+	}
+	if ill {
+		rec.Class("shape/" + part + "/ill-formed-byte-before-match-end")
+		nt = true
+	}
+	if !utf8.ValidString(c.S) {
+		rec.Class("subject/" + part + "/ill-formed")
 	}
 	if nullcap {
 		rec.Class("shape/" + part + "/capture-not-participating")
@@ -529,7 +632,7 @@ func lawMatch(c reCase, rf *ref) string {
 		return bad
 	}
 	for _, m := range ms {
-		if msg := sliceLaw(rf.r, m); msg != "" {
+		if msg := sliceLaw(c.S, rf.r, m); msg != "" {
 			return msg
 		}
 	}
@@ -681,15 +784,16 @@ var subTemplates = []struct {
 	}},
 }
 
-func replaceModel(r []rune, ms []matchT, fn func(matchT) string) string {
+func replaceModel(s string, ms []matchT, fn func(matchT) string) string {
+	n := len([]rune(s))
 	var sb strings.Builder
 	next := 0
 	for _, m := range ms {
-		sb.WriteString(string(r[next:m.Offset]))
+		sb.WriteString(cut(s, next, m.Offset))
 		sb.WriteString(fn(m))
 		next = m.Offset + m.Length
 	}
-	sb.WriteString(string(r[next:]))
+	sb.WriteString(cut(s, next, n))
 	return sb.String()
 }
 
@@ -712,7 +816,7 @@ func lawSub(c reCase, rf *ref) string {
 	if m, done := agreeErr(name, rf, err); done {
 		return m
 	}
-	want := replaceModel(rf.r, list, tpl.fn)
+	want := replaceModel(c.S, list, tpl.fn)
 	if len(vals) != 1 {
 		return fmt.Sprintf("%s with %s gives %s, replacing the %d match(es) gives %q", name, tpl.src, univ.ShowAll(vals), len(list), want)
 	}
@@ -759,14 +863,15 @@ func lawGsubID(c reCase, rf *ref) string {
 
 // --- law: the pieces of splits interleaved with the matches rebuild the subject
 
-func piecesModel(r []rune, gs []matchT) []any {
+func piecesModel(s string, gs []matchT) []any {
+	n := len([]rune(s))
 	out := make([]any, 0, len(gs)+1)
 	next := 0
 	for _, m := range gs {
-		out = append(out, string(r[next:m.Offset]))
+		out = append(out, cut(s, next, m.Offset))
 		next = m.Offset + m.Length
 	}
-	return append(out, string(r[next:]))
+	return append(out, cut(s, next, n))
 }
 
 func checkPieces(name string, c reCase, rf *ref, vals []any) string {
@@ -787,7 +892,7 @@ func checkPieces(name string, c reCase, rf *ref, vals []any) string {
 	if sb.String() != c.S {
 		return fmt.Sprintf("pieces %s interleaved with the matches rebuild %q, not the subject %q", univ.Show(vals), sb.String(), c.S)
 	}
-	if want := piecesModel(rf.r, rf.gs); !univ.Equal(vals, want) {
+	if want := piecesModel(c.S, rf.gs); !univ.Equal(vals, want) {
 		return fmt.Sprintf("%s gives %s, the stretches between the global matches are %s", name, univ.Show(vals), univ.Show(want))
 	}
 	return ""
@@ -937,8 +1042,8 @@ func validCase(c reCase) string {
 	default:
 		return "bad case: form"
 	}
-	if !utf8.ValidString(c.S) || !utf8.ValidString(c.Re) {
-		return "bad case: invalid UTF-8"
+	if !utf8.ValidString(c.Re) {
+		return "bad case: regex is not valid UTF-8"
 	}
 	for _, f := range c.flagsStr() {
 		if f != 'g' && f != 'i' && f != 'm' {
@@ -960,6 +1065,48 @@ type cpCase struct {
 	J   *int   `json:"j"`
 	T   string `json:"t,omitempty"` // needle
 	Lit bool   `json:"lit,omitempty"`
+}
+
+func (c cpCase) MarshalJSON() ([]byte, error) {
+	type plain cpCase
+	a := struct {
+		plain
+		Hex  string `json:"s_hex,omitempty"`
+		THex string `json:"t_hex,omitempty"`
+	}{plain: plain(c)}
+	if !utf8.ValidString(c.S) {
+		a.Hex = hexOf(c.S)
+	}
+	if !utf8.ValidString(c.T) {
+		a.THex = hexOf(c.T)
+	}
+	return json.Marshal(a)
+}
+
+func (c *cpCase) UnmarshalJSON(b []byte) error {
+	type plain cpCase
+	var a struct {
+		plain
+		Hex  string `json:"s_hex"`
+		THex string `json:"t_hex"`
+	}
+	if err := json.Unmarshal(b, &a); err != nil {
+		return err
+	}
+	*c = cpCase(a.plain)
+	for _, f := range []struct {
+		h   string
+		dst *string
+	}{{a.Hex, &c.S}, {a.THex, &c.T}} {
+		if f.h != "" {
+			raw, err := hex.DecodeString(f.h)
+			if err != nil {
+				return err
+			}
+			*f.dst = string(raw)
+		}
+	}
+	return nil
 }
 
 func optInt(p *int) any {
@@ -1027,7 +1174,8 @@ func checkLength(c cpCase) string {
 	for i, x := range r {
 		cps[i] = int(x)
 	}
-	want := []any{utf8.RuneCountInString(c.S), len(r), cps, c.S}
+	// implode re-encodes: every ill-formed byte has become U+FFFD
+	want := []any{utf8.RuneCountInString(c.S), len(r), cps, string(r)}
 	if !univ.Equal(got, want) {
 		return fmt.Sprintf("%s on %q gives %s, the code-point model gives %s", srcLength, c.S, univ.Show(got), univ.Show(want))
 	}
@@ -1084,7 +1232,7 @@ func checkSlice(c cpCase) string {
 		return msg
 	}
 	a, b := sliceBounds(len(r), c.I, c.J)
-	want := string(r[a:b])
+	want := cut(c.S, a, b)
 	if s, ok := got.(string); !ok || s != want {
 		return fmt.Sprintf("%s on %q (i=%s j=%s) gives %s, code points [%d:%d] are %q", src, c.S, showOpt(c.I), showOpt(c.J), univ.Show(got), a, b, want)
 	}
@@ -1111,6 +1259,11 @@ func checkIndex(c cpCase) string {
 	var want any
 	if 0 <= i && i < len(r) {
 		want = string(r[i])
+	}
+	if gs, ok := got.(string); ok && want != nil && !utf8.ValidString(c.S) {
+		// the code point of an ill-formed byte is U+FFFD: judge on the
+		// code-point level (the byte itself would explode to the same)
+		got = string([]rune(gs))
 	}
 	if !univ.Equal(got, want) {
 		return fmt.Sprintf("%s on %q gives %s, code point %d is %s", src, c.S, univ.Show(got), *c.I, univ.Show(want))
@@ -1167,7 +1320,7 @@ func checkFind(c cpCase) string {
 func ntSlice(c cpCase) bool {
 	r := []rune(c.S)
 	a, b := sliceBounds(len(r), c.I, c.J)
-	return multibyteBefore(r, b) && (a > 0 || b < len(r))
+	return (multibyteBefore(c.S, b) || illFormedBefore(c.S, b)) && (a > 0 || b < len(r))
 }
 
 func ntIndex(c cpCase) bool {
@@ -1176,19 +1329,19 @@ func ntIndex(c cpCase) bool {
 	if i < 0 {
 		i += len(r)
 	}
-	return i >= 0 && i < len(r) && multibyteBefore(r, i)
+	return i >= 0 && i < len(r) && (multibyteBefore(c.S, i) || illFormedBefore(c.S, i+1))
 }
 
 func ntFind(c cpCase) bool {
 	r := []rune(c.S)
 	pos := findModel(r, []rune(c.T))
-	return len(pos) > 0 && multibyteBefore(r, pos[len(pos)-1])
+	return len(pos) > 0 && (multibyteBefore(c.S, pos[len(pos)-1]) || illFormedBefore(c.S, pos[len(pos)-1]))
 }
 
 // ---------------------------------------------------------------------------
 // generators
 
-func genSubject(alpha []string, max int) *rapid.Generator[string] {
+func genSubject(alpha []string, max int, bad bool) *rapid.Generator[string] {
 	return rapid.Custom(func(t *rapid.T) string {
 		n := rapid.SampledFrom([]int{0, 1, 2, 3, 5, 5, 8, 8, 12, 12, 20, max}).Draw(t, "maxlen")
 		n = rapid.IntRange(0, n).Draw(t, "len")
@@ -1207,6 +1360,16 @@ func genSubject(alpha []string, max int) *rapid.Generator[string] {
 				set[i] = rapid.SampledFrom(wide).Draw(t, "wideletter")
 			} else {
 				set[i] = rapid.SampledFrom(alpha).Draw(t, "letter")
+			}
+		}
+		if bad && rapid.IntRange(0, 2).Draw(t, "illformed") == 0 {
+			// ill-formed bytes among the working letters: they land at the
+			// start, in the middle and at the end of subjects
+			set[rapid.IntRange(0, k-1).Draw(t, "badslot")] = rapid.SampledFrom(badPieces).Draw(t, "badpiece")
+			for i := range set {
+				if rapid.IntRange(0, 3).Draw(t, "morebad") == 0 {
+					set[i] = rapid.SampledFrom(badPieces).Draw(t, "badpiece")
+				}
 			}
 		}
 		for i := 0; i < n; i++ {
@@ -1364,6 +1527,7 @@ var handRegexes = []string{
 	"(?<n1>a)|(?<n2>é)", "(a)?", "a??", "(?<n1>.)(?<n2>.)?", `\x{301}`, `\s`, `\S+`, "(?m:^)", "(?m:$)",
 	"あ|\U0001F600", "[あ-ん]?", ".{2}", "(?:)|a", "a|", `\pM*`, "(?i)A", "b+?", "()", "(?<n1>)", "\n",
 	"^.", ".$", `\A|\z`, "[ab]+", "(?<n1>a+)(?<n2>b*)", "(a)|b", "(?<n1>\U0001F600)?(?<n2>b)?", `[^\n]*`, ".?", "(.)(.)?", ` *`, "(?s).",
+	`\x{fffd}`, `(?<n1>\x{fffd}+)|(?<n2>a)`,
 }
 
 // genRegex draws a regex Go's regexp accepts; the letters of the subject are
@@ -1400,7 +1564,7 @@ func genRegex(t *rapid.T, subject string) (string, map[string]bool) {
 }
 
 func genReCase(t *rapid.T) (reCase, map[string]bool) {
-	s := genSubject(rndAlphabet, 30).Draw(t, "subject")
+	s := genSubject(rndAlphabet, 30, true).Draw(t, "subject")
 	re, feat := genRegex(t, s)
 	fl := genFlags(t)
 	c := reCase{S: s, Re: re, Flags: fl, Form: genForm(t, fl)}
@@ -1422,9 +1586,6 @@ func replayCase(sub string, raw json.RawMessage) string {
 		var c cpCase
 		if err := json.Unmarshal(raw, &c); err != nil {
 			return "bad replay: " + err.Error()
-		}
-		if !utf8.ValidString(c.S) {
-			return "bad case"
 		}
 		switch sub {
 		case "length":
@@ -1493,70 +1654,92 @@ func TestC14(t *testing.T) {
 		idxs = append(idxs, ip(i))
 	}
 	needles := subjectsUpTo(exhAlphabet, 2)[1:]
-	for n, s := range subjects {
-		if !rec.Mine(n) {
-			continue
+
+	// the ill-formed scope: every subject of up to 3 pieces over
+	// badExhAlphabet that is not valid UTF-8 (up to 9 code points)
+	var badSubjects []string
+	for _, s := range subjectsUpTo(badExhAlphabet, 3) {
+		if !utf8.ValidString(s) {
+			badSubjects = append(badSubjects, s)
 		}
-		mb := multibyteBefore([]rune(s), len(s))
-		c := cpCase{S: s}
-		rec.Eval()
-		if mb {
-			rec.NT("length\x00" + s)
-		}
-		if msg := checkLength(c); msg != "" {
-			report("length", c, msg)
-		}
-		// both syntactic forms (indices as variables / as literals in the
-		// query text) in thorough, alternating in quick
-		k := n
-		forms := func() []bool {
-			k++
-			if rec.Thorough() {
-				return []bool{false, true}
+	}
+	badIdxs := []*int{nil}
+	for i := -10; i <= 10; i++ {
+		badIdxs = append(badIdxs, ip(i))
+	}
+	badNeedles := append(subjectsUpTo(badExhAlphabet, 1)[1:], "\ufffd", "a\x80", "\x80a", "\xc3\x80", "\xb0\xb0", "\xe3\x81\x80", "\xff\u00e9", "\xed\xa0", "\xa0\x80")
+
+	cpExhaustive := func(subjects []string, idxs []*int, needles []string) {
+		for n, s := range subjects {
+			if !rec.Mine(n) {
+				continue
 			}
-			return []bool{k%2 == 0}
-		}
-		for _, i := range idxs {
-			for _, j := range idxs {
+			mb := multibyteBefore(s, len(s)) || !utf8.ValidString(s)
+			c := cpCase{S: s}
+			rec.Eval()
+			if mb {
+				rec.NT("length\x00" + s)
+			}
+			if msg := checkLength(c); msg != "" {
+				report("length", c, msg)
+			}
+			// both syntactic forms (indices as variables / as literals in the
+			// query text) in thorough, alternating in quick
+			k := n
+			forms := func() []bool {
+				k++
+				if rec.Thorough() {
+					return []bool{false, true}
+				}
+				return []bool{k%2 == 0}
+			}
+			for _, i := range idxs {
+				for _, j := range idxs {
+					for _, lit := range forms() {
+						c := cpCase{S: s, I: i, J: j, Lit: lit}
+						rec.Eval()
+						if ntSlice(c) {
+							rec.NT(fmt.Sprintf("slice\x00%s\x00%s:%s%v", s, showOpt(i), showOpt(j), lit))
+						}
+						if msg := checkSlice(c); msg != "" {
+							report("slice", c, msg)
+						}
+					}
+				}
+				if i != nil {
+					for _, lit := range forms() {
+						c := cpCase{S: s, I: i, Lit: lit}
+						rec.Eval()
+						if ntIndex(c) {
+							rec.NT(fmt.Sprintf("index\x00%s\x00%d%v", s, *i, lit))
+						}
+						if msg := checkIndex(c); msg != "" {
+							report("index", c, msg)
+						}
+					}
+				}
+			}
+			for _, nd := range needles {
 				for _, lit := range forms() {
-					c := cpCase{S: s, I: i, J: j, Lit: lit}
+					c := cpCase{S: s, T: nd, Lit: lit}
 					rec.Eval()
-					if ntSlice(c) {
-						rec.NT(fmt.Sprintf("slice\x00%s\x00%s:%s%v", s, showOpt(i), showOpt(j), lit))
+					if ntFind(c) {
+						rec.NT("find\x00" + s + "\x00" + nd + fmt.Sprint(lit))
 					}
-					if msg := checkSlice(c); msg != "" {
-						report("slice", c, msg)
+					if msg := checkFind(c); msg != "" {
+						report("find", c, msg)
 					}
-				}
-			}
-			if i != nil {
-				for _, lit := range forms() {
-					c := cpCase{S: s, I: i, Lit: lit}
-					rec.Eval()
-					if ntIndex(c) {
-						rec.NT(fmt.Sprintf("index\x00%s\x00%d%v", s, *i, lit))
-					}
-					if msg := checkIndex(c); msg != "" {
-						report("index", c, msg)
-					}
-				}
-			}
-		}
-		for _, nd := range needles {
-			for _, lit := range forms() {
-				c := cpCase{S: s, T: nd, Lit: lit}
-				rec.Eval()
-				if ntFind(c) {
-					rec.NT("find\x00" + s + "\x00" + nd + fmt.Sprint(lit))
-				}
-				if msg := checkFind(c); msg != "" {
-					report("find", c, msg)
 				}
 			}
 		}
 	}
+	cpExhaustive(subjects, idxs, needles)
 	rec.Exhaustive(fmt.Sprintf("code-point laws: %d subjects (alphabet of %d, length<=4) x indices -6..6/absent (as variables and as literals) x needles of length 1..2", len(subjects), len(exhAlphabet)),
 		direct["length"]+direct["slice"]+direct["index"]+direct["find"] == 0)
+	cpBefore := direct["length"] + direct["slice"] + direct["index"] + direct["find"]
+	cpExhaustive(badSubjects, badIdxs, badNeedles)
+	rec.Exhaustive(fmt.Sprintf("code-point laws on ill-formed UTF-8: %d subjects (<=3 pieces of %d, not valid UTF-8) x indices -10..10/absent x %d needles", len(badSubjects), len(badExhAlphabet), len(badNeedles)),
+		direct["length"]+direct["slice"]+direct["index"]+direct["find"] == cpBefore)
 
 	// (E2) regex laws: every subject up to 4 letters x the hand-written
 	// regex list x flag sets, all nine laws on each.
@@ -1572,51 +1755,60 @@ func TestC14(t *testing.T) {
 		before += direct[l.name]
 	}
 	cnt := 0
-	for n, s := range subjects {
-		if !rec.Mine(n) {
-			continue
-		}
-		for ri, re := range hand {
-			var fsel []*string
-			if rec.Thorough() {
-				fsel = flagSets
-			} else {
-				// two flag sets per (subject, regex), rotating
-				fsel = []*string{flagSets[(n+ri)%2], flagSets[2+(n+ri*5)%6]}
+	reExhaustive := func(subjects []string) {
+		for n, s := range subjects {
+			if !rec.Mine(n) {
+				continue
 			}
-			for _, fl := range fsel {
-				c := reCase{S: s, Re: re, Flags: fl, Form: "v2"}
-				switch (n + ri) % 3 {
-				case 0:
-					if fl == nil {
-						c.Form = "v1"
-					}
-				case 1:
-					c.Form = "lit"
+			for ri, re := range hand {
+				var fsel []*string
+				if rec.Thorough() {
+					fsel = flagSets
+				} else {
+					// two flag sets per (subject, regex), rotating
+					fsel = []*string{flagSets[(n+ri)%2], flagSets[2+(n+ri*5)%6]}
 				}
-				rf := fetchRef(c)
-				for i := range laws {
-					l, c := &laws[i], c
-					if l.name == "sub" || l.name == "gsubid" {
-						cnt++
-						c.K = cnt % len(subTemplates)
-						c.G = (cnt/len(subTemplates))%2 == 0
+				for _, fl := range fsel {
+					c := reCase{S: s, Re: re, Flags: fl, Form: "v2"}
+					switch (n + ri) % 3 {
+					case 0:
+						if fl == nil {
+							c.Form = "v1"
+						}
+					case 1:
+						c.Form = "lit"
 					}
-					rec.Eval()
-					observe("exh", l.name, c, rf)
-					if msg := l.judge(c, rf); msg != "" {
-						report(l.name, c, msg)
+					rf := fetchRef(c)
+					for i := range laws {
+						l, c := &laws[i], c
+						if l.name == "sub" || l.name == "gsubid" {
+							cnt++
+							c.K = cnt % len(subTemplates)
+							c.G = (cnt/len(subTemplates))%2 == 0
+						}
+						rec.Eval()
+						observe("exh", l.name, c, rf)
+						if msg := l.judge(c, rf); msg != "" {
+							report(l.name, c, msg)
+						}
 					}
 				}
 			}
 		}
 	}
-	after := 0
-	for _, l := range laws {
-		after += direct[l.name]
+	lawViolations := func() int {
+		n := 0
+		for _, l := range laws {
+			n += direct[l.name]
+		}
+		return n
 	}
-	rec.Exhaustive(fmt.Sprintf("regex laws: %d subjects (length<=4) x %d hand-written regexes x %s", len(subjects), len(hand),
-		map[bool]string{true: "8 flag sets", false: "2 rotating flag sets of 8"}[rec.Thorough()]), after == before)
+	reExhaustive(subjects)
+	flagsText := map[bool]string{true: "8 flag sets", false: "2 rotating flag sets of 8"}[rec.Thorough()]
+	rec.Exhaustive(fmt.Sprintf("regex laws: %d subjects (length<=4) x %d hand-written regexes x %s", len(subjects), len(hand), flagsText), lawViolations() == before)
+	before = lawViolations()
+	reExhaustive(badSubjects)
+	rec.Exhaustive(fmt.Sprintf("regex laws on ill-formed UTF-8: %d subjects (<=3 pieces, not valid UTF-8) x %d hand-written regexes x %s", len(badSubjects), len(hand), flagsText), lawViolations() == before)
 
 	// (R) random part: one rapid sub-check per law.
 	for i := range laws {
@@ -1656,10 +1848,13 @@ func TestC14(t *testing.T) {
 
 	cpSub := func(name string, n int, draw func(t *rapid.T, s string, r []rune) cpCase, nt func(cpCase) bool, check func(cpCase) string) {
 		rec.Rapid(t, name, n, func(t *rapid.T) {
-			s := genSubject(rndAlphabet, 30).Draw(t, "subject")
+			s := genSubject(rndAlphabet, 30, true).Draw(t, "subject")
 			c := draw(t, s, []rune(s))
 			rec.Eval()
 			rec.Class("law/" + name)
+			if !utf8.ValidString(c.S) {
+				rec.Class("subject/cp/ill-formed")
+			}
 			if c.Lit {
 				rec.Class("form/cp-literal")
 			}
@@ -1673,7 +1868,7 @@ func TestC14(t *testing.T) {
 		})
 	}
 	cpSub("length", rec.Scale(24000, 600000), func(t *rapid.T, s string, r []rune) cpCase { return cpCase{S: s} },
-		func(c cpCase) bool { return multibyteBefore([]rune(c.S), len(c.S)) }, checkLength)
+		func(c cpCase) bool { return multibyteBefore(c.S, len(c.S)) || !utf8.ValidString(c.S) }, checkLength)
 	cpSub("slice", rec.Scale(120000, 2400000), func(t *rapid.T, s string, r []rune) cpCase {
 		c := cpCase{S: s, Lit: rapid.IntRange(0, 4).Draw(t, "lit") == 0}
 		if rapid.IntRange(0, 5).Draw(t, "noi") != 0 {
@@ -1692,7 +1887,7 @@ func TestC14(t *testing.T) {
 		if len(r) > 0 && rapid.IntRange(0, 3).Draw(t, "substr") != 0 {
 			a := rapid.IntRange(0, len(r)-1).Draw(t, "from")
 			b := rapid.IntRange(a+1, min(len(r), a+4)).Draw(t, "to")
-			c.T = string(r[a:b])
+			c.T = cut(s, a, b) // the bytes themselves, ill-formed ones included
 		} else {
 			n := rapid.IntRange(1, 3).Draw(t, "needlelen")
 			for i := 0; i < n; i++ {
